@@ -35,6 +35,7 @@ CHUNK_CYCLES = 160000
 GFAM = GFamily("axiburst/AxiB2BGraph", "axiburst/AxiB2BTrace", "harness.families.axiburst:make", hint=fam.Hint(),
                clause_map={"BeatAddress": "BeatAddressT", "FirstLast": "FirstLastT", "ConsumedOnce": "ConsumedOnceT",
                            "ValidHold": "ValidHoldT", "BurstTerminates": "BoundedTermination"},
+               fmt="hash",
                describe=lambda s: "AXIBurst2Beat%s%s" % ("(capabilities=%s)" % s["caps"] if "caps" in s else "",
                                                           " [%s]" % s["tag"] if "tag" in s else ""))
 
@@ -158,6 +159,23 @@ def run_b2b_cases(report, tier, seed, scratch, log=print):
     log("recorded %d bursts, %d cycles in %.1fs" % (sum(len(o) for _, (j, outs) in recorded.items() for o in outs),
                                                    ncyc, time.time() - t0))
     report.add(b2b_requests=len(reqs), b2b_cycles_recorded=ncyc)
+    # vacuity witnesses (measured on the recorded stimulus, no verdict): stalled beats, gaps, wrapping bursts
+    wit = {"stalled_beat_cycles": 0, "idle_gap_cycles": 0, "wrap_bursts_that_wrap": 0, "unaligned_starts": 0,
+           "bursts_of_256_beats": 0}
+    for name, (jobs, outs) in recorded.items():
+        for o in outs:
+            for c in o:
+                r = c["req"]
+                if name == "no stalls":
+                    wit["unaligned_starts"] += 1 if r[1] % (1 << r[3]) else 0
+                    wit["bursts_of_256_beats"] += 1 if r[2] == 255 else 0
+                    wit["wrap_bursts_that_wrap"] += 1 if r[4] == 2 and r[1] % ((r[2] + 1) << r[3]) else 0
+                else:
+                    wit["stalled_beat_cycles"] += sum(1 for x in c["cyc"] if x[3] == 1 and x[1] == 0)
+                    wit["idle_gap_cycles"] += sum(1 for x in c["cyc"] if x[0] == 0)
+    if not all(wit.values()):
+        raise MachineryError("vacuous stimulus: %r" % wit)
+    report.add(b2b_witnesses=wit)
     # ---- judge, chunked; up to three TLC runs at a time
     failed_clauses = set()
     work = []
@@ -261,11 +279,12 @@ def conv_cases(fb, tb, reqs, tier, rnd):
     if not sup:
         raise MachineryError("no supported request for %d->%d" % (fb, tb))
     cases = []
+    done_long = set()
     resp = (0, 0, 0, 2, 3)
 
     def op(r, slot):
         return [0x1000 * (slot + 1) + r[0], r[1], r[2], r[3], rnd.randrange(16), rnd.choice(resp)]
-    modes = (0, 1, 2) if tier == "thorough" else (0, 1)
+    modes = (0, 1, 2, 1, 2, 1) if tier == "thorough" else (0, 1)
     for mode in modes:
         short = [r for r in sup if r[1] <= 15]
         long_ = [r for r in sup if r[1] > 15]
@@ -278,8 +297,9 @@ def conv_cases(fb, tb, reqs, tier, rnd):
                           "seed": rnd.randrange(1 << 30), "stall": mode, "cls": "supported",
                           "sparse": rnd.random() < 0.5})
         for x in long_:
-            if mode == 2:
+            if mode == 2 or (mode, x) in done_long:
                 continue
+            done_long.add((mode, x))
             cases.append({"writes": [op(x, 0)], "reads": [op(x, 1)], "seed": rnd.randrange(1 << 30), "stall": mode,
                           "cls": "supported", "sparse": False})
     # priming burst: aligned INCR of one wide word, full strobes
@@ -416,7 +436,10 @@ def run_conv(report, tier, seed, scratch, log=print):
     for ji, ci, clauses in failing:
         spec, cases, _ = jobs[ji]
         case = cases[ci]
-        key = (spec["from"], spec["to"], case["cls"], clauses[0], case["stall"] > 0)
+        if case["cls"] == "supported":
+            key = (spec["from"], spec["to"], case["cls"], clauses[0], case["stall"] > 0)
+        else:
+            key = (_dutname(spec["from"], spec["to"]), case["cls"], clauses[0], case["stall"] > 0)
         seen[key] = seen.get(key, 0) + 1
         if seen[key] > (2 if case["cls"] == "supported" else 1):
             continue
